@@ -37,8 +37,13 @@ RULES = {
     "for each removed box, i.e. in a loop when more than one box goes (clear(), rebinding, `_length = 0`): erase() is what marks a "
     "box for the cursors parked on it; a bulk reset that skips it leaves iterators walking the stale chain and yielding nodes that "
     "no longer belong to the graph",
+    "R9": "a multi-insert continues where the single insert put the element: in the loop of the linked set that inserts several values one "
+    "after another, the insertion point for the next value is the box the single-insert primitive returned - never `<point>.next` or "
+    "any other walk of the links: the primitive answers with the existing box when the value already sits at the insertion point (a move "
+    "that changes nothing), and then `.next` is the following element, so the rest of the batch lands one place too late "
+    "(`insert_before(C, [B, X])` with B in front of C puts X after C - an iterator parked on C yields a node inserted before it)",
 }
-FLOORS = {"R1": 3, "R2": 4, "R3": 8, "R4": 3, "R5": 1, "R6": 5, "R7": 6, "R8": 1}
+FLOORS = {"R1": 3, "R2": 4, "R3": 8, "R4": 3, "R5": 1, "R6": 5, "R7": 6, "R8": 1, "R9": 1}
 EXPLANATION = (
     "Checks the structural invariants the tombstone scheme of the doubly linked node list depends on: who writes "
     "which link, control dependence of every yield on the erased test, paired updates of length and map (CFG "
@@ -587,7 +592,39 @@ def _ancestors(n, stop):
         p = getattr(p, "_parent", None)
 
 
+def rule_r9(ctx):
+    dl = ctx.repo.cls(f"{LL}:DoublyLinkedSet")
+    prim = dl.methods.get("_insert_one_after")
+    ctx.require(prim is not None, "DoublyLinkedSet._insert_one_after not found")
+    n = 0
+    for f in ctx.repo.live(dl.methods.values()):
+        if f is prim or isinstance(f.node, ast.Lambda):
+            continue
+        for lp in (x for x in own_nodes(f.node) if isinstance(x, (ast.For, ast.While))):
+            calls = [c for st in lp.body for c in ast.walk(st) if isinstance(c, ast.Call) and isinstance(c.func, ast.Attribute) and c.func.attr == prim.name
+                     and norm(c.func.value) == f.params[0] and c.args]
+            for c in calls:
+                pt = c.args[0]
+                if not isinstance(pt, ast.Name):
+                    continue
+                n += 1
+                # every rebinding of the insertion point inside the loop is the primitive's result
+                rebinds = [a for st in lp.body for a in ast.walk(st) if isinstance(a, (ast.Assign, ast.AugAssign, ast.AnnAssign, ast.NamedExpr))
+                           and any(isinstance(t, ast.Name) and t.id == pt.id for t in ([a.target] if not isinstance(a, ast.Assign) else a.targets))]
+                bad = [a for a in rebinds if not (isinstance(getattr(a, "value", None), ast.Call) and isinstance(a.value.func, ast.Attribute) and a.value.func.attr == prim.name)]
+                ok = bool(rebinds) and not bad
+                ctx.check("R9", f"{f.local}: the next insertion point is the box {prim.name} returned", ok, f, bad[0] if bad else c,
+                          f"`{norm(bad[0])[:60] if bad else norm(c)[:60]}`: inside the loop the insertion point `{pt.id}` is "
+                          + ("advanced by walking the links instead of taking the box the primitive returned" if bad else "never advanced")
+                          + " - when the value already sits at the insertion point the primitive returns that box and links nothing, so the walk skips one element and "
+                          "the rest of the batch is inserted one place too late (after a node the iterator has already reached)",
+                          how="rebindings, inside the loop, of the variable passed as insertion point: each is `<point> = self._insert_one_after(…)`",
+                          construct=f"insertion point of {f.local} not taken from the primitive")
+    ctx.require(n >= 1, "no loop over the single-insert primitive found in the linked set")
+
+
 def run(ctx):
+    rule_r9(ctx)
     rule_r5(ctx)
     rule_r8(ctx)
     rule_r7(ctx)
